@@ -171,10 +171,12 @@ def implementation_ranges(ck, ctx, fwd, fa):
     ck.ob('C17/tolerance/S', 'PROVED' if up_s <= 1e-4 else 'UNDECIDED',
           f"|computed S - hexcone S| <= {up_s:.3g} <= 1e-4 wherever 0.01 <= L <= 0.99 ({n_s} boxes)" if up_s <= 1e-4 else f"bound {up_s:.3g} after {n_s} boxes, worst box {wbox} ({msg})")
     ck.count('tolerance_boxes', n_l + n_s)
+    hue = None
     try:
-        hue_tolerance(ck, ctx, fwd, atoms, lemmas)
+        hue = hue_tolerance(ck, ctx, fwd, atoms, lemmas)
     except Unsupported as ex:
         ck.ob('C17/tolerance/H', 'UNDECIDED', f"hue kernel not of the expected shape: {ex}")
+    return dict(atoms=atoms, lemmas=lemmas, lnode=lnode, A1=up_l, hue=hue)
 
 def hue_tolerance(ck, ctx, fwd, atoms, lemmas):
     """|computed H - hexcone H| <= 0.01 degrees (as angles) wherever max - min >= 0.01.
@@ -234,6 +236,7 @@ def hue_tolerance(ck, ctx, fwd, atoms, lemmas):
     R, G, B = sp.symbols('r g b', real=True)
     sy = {atoms[0].id: R, atoms[1].id: G, atoms[2].id: B}
     WRAP = 360.0 * 2.0 ** -24 * 1.01
+    tie_gaps = []
     for mi, M in enumerate(order):
         for ti, T_ in enumerate(order[:mi + 1]):
             key = f"C17/tolerance/H/max-{names[M.id]}/formula-{names[T_.id]}"
@@ -258,7 +261,137 @@ def hue_tolerance(ck, ctx, fwd, atoms, lemmas):
                   (f"|H - hexcone H| <= {E[T_.id]:.3g} (rounding of the {names[T_.id]}-formula)" + (f" + {gap:.3g} (formula of a channel within eps of the maximum)" if gap else '') + f" + {WRAP:.2g} (wrap) = {total:.3g} <= 0.01 degrees where max - min >= 0.01")
                   if total <= 0.01 else f"bound {total:.3g} exceeds 0.01")
             ck.count('hue_regions')
+            tie_gaps.append(gap * (0.01 - 1e-7))          # = tol * |K| (1 + 1e-6): the gap in degrees times (max - min)
     ck.floor('hue_regions', 6)
+    return dict(H=H, cnode=cnode, achromatic_tol=float(top.args[0].args[1].val), order=order, tie=max(tie_gaps) if tie_gaps else 0.0, wrap=WRAP)
+
+def roundtrip_rounding(ck, ctx, fwd, inv, ia, fw):
+    """|hsl_to_lrgb(lrgb_to_hsl(p)) - p| <= 1e-5 per component for the values the binary32 code computes, every p in [0,1]^3.
+
+    Entry-wise error propagation through the composition fails (DESIGN.md 8.7): the rounded denominator D = 1 - |2L - 1| has a
+    large relative error near L ~ 2^-23 that cancels only because the backward conversion multiplies by the SAME rounded
+    expression, the backward sextant is selected from the computed hue, and the hue error grows like 1/(max - min).  The
+    argument is therefore assembled from clauses that each hold uniformly:
+
+      backward, cut at h' = H/60 and at d = D (their computed values taken as exact inputs):
+        (B1) |computed - real evaluation| <= eps_B over (h', S, L, d) in [0,6] x [0,1]^3          (error propagation)
+        (B2) the real evaluation is  L + d S (sigma_j(h') - 1/2),  sigma_j piecewise affine with slopes in {0, +-1},
+             values in [0,1], continuous at the sextant boundaries and from 6 back to 0            (sympy, per sextant)
+      forward (p in [0,1]^3; l, c = max - min, h'_id the hexcone values; the per-cell identities above give
+               p_j = l + c (sigma_j(h'_id) - 1/2)):
+        (F1) |L_c - l| <= A1                                                                      (C17/tolerance/L)
+        (F2) P = d_c S_c (the real product of the two computed numbers) is within A2 of c:  the numerator N of S is c up to
+             A_N, D is D_id = 1 - |max + min - 1| up to A_D (error propagation), c <= D_id on the cube (per-cell identity
+             D_id - c in {2 min, 2 - 2 max}), S = 0 under the guards |L| < g, |L - 1| < g where c < 2 (g + A1)
+        (F3) c * dist_mod6(h'_c, h'_id) <= A3: every sextant formula is 60 (k + t), t = fl(fl(a - b) / fl(max - min)) with
+             |t_c - t| <= 3.000001 u |t| (three relative roundings of exact inputs; lemma R), so its rounding error is
+             bounded independently of max - min; the formula of a channel within the tie tolerance of the maximum differs
+             from the right one by tol K / (max - min) (hue_tolerance), which the factor c cancels; the achromatic guard
+             leaves c < tol (1 + 2u) and a hue distance <= 3.
+      Then  out_j - p_j = [B1] + (L_c - l) + (P - c)(sigma_j(h'_c) - 1/2) + c (sigma_j(h'_c) - sigma_j(h'_id)),
+      i.e. |out_j - p_j| <= eps_B + A1 + A2 / 2 + A3."""
+    from engine import realerr
+    from engine.ival import I
+    key = 'C17/roundtrip-rounding'
+    U = 2.0 ** -24
+    atoms, lemmas, lnode, A1, hue = fw['atoms'], fw['lemmas'], fw['lnode'], fw['A1'], fw['hue']
+    if hue is None or lnode is None:
+        ck.ob(key, 'UNDECIDED', 'forward kernel not of the analysed shape (hue / lightness clauses above)'); return
+    box3 = [(0.0, 1.0)] * 3
+    H_at, S_at, L_at = ia[0], ia[1], ia[2]
+    ids = {a.id for a in atoms}
+    # ---------------- forward saturation: guards, numerator, denominator
+    cur = fwd.fields[1]; guards = {}
+    while cur.op == 'select' and cur.args[1].is_const and float(cur.args[1].val) == 0.0 and cur.args[0].op in ('lt', 'le') \
+            and cur.args[0].args[0].op == 'call:abs' and cur.args[0].args[1].is_const:
+        A = cur.args[0].args[0].args[0]; g = float(cur.args[0].args[1].val)
+        if A is lnode: guards['low'] = g
+        elif A.op == 'fsub' and A.args[0] is lnode and A.args[1].is_const and float(A.args[1].val) == 1.0: guards['high'] = g
+        else: raise Unsupported('a saturation guard tests neither L nor L - 1')
+        cur = cur.args[2]
+    mm = realerr._as_minmax(cur) if cur.op == 'select' else None
+    if mm is not None:
+        if not (mm[0] == 'min' and mm[2].is_const and float(mm[2].val) == 1.0): raise Unsupported('saturation is capped by something else than min(., 1)')
+        cur = mm[1]
+    if not (cur.op == 'fdiv' and set(guards) == {'low', 'high'}):
+        raise Unsupported('saturation is not  guard ? 0 : [min(1,] N / D [)]  with guards on L and L - 1')
+    Nn, Dn = cur.args
+    if lnode.id not in {m_.id for m_ in X.walk(Dn)} or any(m_.id in ids for m_ in X.walk(X.substitute(Dn, {lnode.id: L_at}))):
+        raise Unsupported('the denominator of S is not a function of L alone')
+    R_, G_, B_ = sp.symbols('r g b', real=True)
+    sy = {atoms[0].id: R_, atoms[1].id: G_, atoms[2].id: B_}
+    vals = [Fr(7, 10), Fr(9, 20), Fr(1, 5)]
+    import itertools
+    for perm in itertools.permutations(range(3)):
+        for shift in (Fr(0), Fr(1, 4)):                      # dark (max + min < 1) and light (max + min > 1) half of the cell
+            pt = {atoms[i].id: vals[perm[i]] + shift for i in range(3)}
+            mx = [a for i, a in enumerate(atoms) if perm[i] == 0][0]; mn = [a for i, a in enumerate(atoms) if perm[i] == 2][0]
+            cexpr = sy[mx.id] - sy[mn.id]
+            if sp.cancel(resolve_at(Nn, pt, sy)[0] - cexpr) != 0:
+                raise Unsupported('the numerator of S is not max - min as a real expression')
+            gapD = sp.expand(resolve_at(Dn, pt, sy)[0] - cexpr)
+            if gapD != sp.expand(2 * sy[mn.id]) and gapD != sp.expand(2 - 2 * sy[mx.id]):
+                raise Unsupported(f"D - (max - min) is neither 2 min nor 2 - 2 max on a cell ({gapD})")
+    A_N = realerr.sup_error_nd(Nn, atoms, None, box3, 1e-7, max_boxes=400, lemmas=lemmas)[0]
+    A_D = realerr.sup_error_nd(Dn, atoms, None, box3, 1e-7, max_boxes=400, lemmas=lemmas)[0]
+    gmax = max(guards.values())
+    A2 = max(A_D, A_N + U * (1 + A_N) + 1e-30, 2 * (gmax + A1) * (1 + 4 * U))
+    # ---------------- forward hue: rounding of each sextant formula, uniformly in max - min (lemma R)
+    cnode = hue['cnode']
+    def lemR(n):
+        if n.op == 'fdiv' and n.args[1] is cnode and n.args[0].op == 'fsub' and n.args[0].args[0].id in ids and n.args[0].args[1].id in ids:
+            e_ = 3.000001 * U + 2.0 ** -149
+            return ('set', I(-1.0, 1.0), I(-e_, e_), I(-1.0, 1.0))
+        return lemmas(n)
+    for T_, f in hue['H'].items():
+        if not any(lemR(m_) is not None and isinstance(lemR(m_), tuple) and lemR(m_)[0] == 'set' for m_ in X.walk(f)):
+            raise Unsupported('a sextant formula does not contain (a - b) / (max - min)')
+    E_round = max(realerr.sup_error_nd(f, atoms, None, box3, 1e-5, max_boxes=400, lemmas=lemR)[0] for f in hue['H'].values())
+    tolc = hue['achromatic_tol']
+    A3 = ((E_round + hue['wrap']) / 60.0 * (1 + 2 * U) + 6.0 * U * 1.0001) + hue['tie'] / 60.0 * (1 + 1e-6) + 3.0 * tolc * (1 + 4 * U)
+    # ---------------- backward, cut at h' and d
+    hp_nodes = {m_.id: m_ for f in inv.fields for m_ in X.walk(f)
+                if (m_.op == 'fdiv' and m_.args[0] is H_at and m_.args[1].is_const) or (m_.op == 'fmul' and H_at in m_.args and any(z.is_const for z in m_.args))}
+    if len(hp_nodes) != 1: raise Unsupported('the backward kernel does not use the hue through one quotient H / const (or product H * const)')
+    hp_node = list(hp_nodes.values())[0]
+    kq = [float(z.val) for z in hp_node.args if z.is_const][0]
+    scale = 1.0 / kq if hp_node.op == 'fdiv' else kq
+    if abs(scale * 60.0 - 1.0) > 1e-6: raise Unsupported('hue is not divided by 60')
+    A3 += 360.0 * abs(scale - 1.0 / 60.0) * (1 + 1e-9) + 6.0 * 2.0 ** -52        # a binary32 reciprocal instead of the quotient (0 for H / 60)
+    D_b = X.substitute(Dn, {lnode.id: L_at})
+    HP = X.sym(X.F32, 'c17.hprime'); DV = X.sym(X.F32, 'c17.dcut')
+    cut = [X.substitute(f, {hp_node.id: HP, D_b.id: DV}) for f in inv.fields]
+    for f in cut:
+        seen = {m_.id for m_ in X.walk(f)}
+        if H_at.id in seen: raise Unsupported('the backward kernel uses H other than through H / 60')
+        if DV.id not in seen: raise Unsupported('the backward kernel does not contain the forward denominator expression 1 - |2L - 1| (no cancellation)')
+        if any(m_.op == 'fma' and L_at in m_.args for m_ in X.walk(f)): raise Unsupported('L enters the backward chroma besides through the cut denominator')
+    at4 = [HP, S_at, L_at, DV]
+    box4 = [(0.0, 6.0), (0.0, 1.0), (0.0, 1.0), (0.0, 1.0)]
+    eps_B = max(realerr.sup_error_nd(f, at4, None, box4, 2e-7, max_boxes=3000)[0] for f in cut)
+    hp_, s_, l_, d_ = sp.symbols('hp s l d', real=True)
+    sy4 = {HP.id: hp_, S_at.id: s_, L_at.id: l_, DV.id: d_}
+    sig = [[None] * 6 for _ in range(3)]
+    for j, f in enumerate(cut):
+        for k in range(6):
+            pt = {HP.id: Fr(k) + Fr(1, 2), S_at.id: Fr(37, 100), L_at.id: Fr(41, 100), DV.id: Fr(29, 100)}
+            ex = resolve_at(f, pt, sy4)[0]
+            sg = sp.cancel((ex - l_) / (d_ * s_) + sp.Rational(1, 2))
+            if sg.free_symbols - {hp_}: raise Unsupported(f"backward component {j} is not L + d S (sigma(h') - 1/2) on sextant {k}: {sg}")
+            slope = sp.diff(sg, hp_)
+            if slope not in (0, 1, -1) or sp.diff(sg, hp_, 2) != 0: raise Unsupported(f"sigma has slope {slope} on sextant {k}")
+            for end in (k, k + 1):
+                v = sg.subs(hp_, end)
+                if not (0 <= v <= 1): raise Unsupported(f"sigma leaves [0,1] on sextant {k}")
+            sig[j][k] = sg
+        for k in range(6):
+            nxt, at = sig[j][(k + 1) % 6], (k + 1)
+            if sp.simplify(sig[j][k].subs(hp_, at) - nxt.subs(hp_, at % 6)) != 0:
+                raise Unsupported(f"backward component {j} jumps between sextants {k} and {(k + 1) % 6}")
+    total = eps_B + A1 + 0.5 * A2 + A3
+    ck.note('roundtrip_rounding', dict(eps_B=eps_B, A1=A1, A_N=A_N, A_D=A_D, A2=A2, E_round_deg=E_round, tie_deg_times_c=hue['tie'], A3=A3, total=total))
+    ck.ob(key, 'PROVED' if total <= 1e-5 else 'UNDECIDED',
+          f"|hsl_to_lrgb(lrgb_to_hsl(p)) - p| <= {eps_B:.3g} (backward rounding, cut at H/60 and 1-|2L-1|) + {A1:.3g} (L) + {0.5 * A2:.3g} (chroma: half of |d S - (max-min)| <= {A2:.3g}) + {A3:.3g} (hue, weighted by max-min) = {total:.3g} {'<=' if total <= 1e-5 else '>'} 1e-5 for every pixel of [0,1]^3 under binary32 rounding")
 
 def range_witness(ctx, e, atoms, lo, hi, strict):
     """constant folding of the kernel at saturated colours whose maximum has low-order mantissa bits set"""
@@ -364,7 +497,11 @@ def run(tier):
             vals.append(leaves)
         ok = all(len(v) == 1 and list(v)[0].is_const and list(v)[0].val == want for v in vals)
         ck.ob(f"C17/doc/L={lv}", 'PROVED' if ok else 'REFUTED', f"L = {lv} gives ({want},{want},{want}) for every finite hue and saturation" if ok else f"L = {lv} gives {[[X.show(x, 4) for x in v] for v in vals]}")
-    implementation_ranges(ck, ctx, fwd, fa)
+    fw = implementation_ranges(ck, ctx, fwd, fa)
+    try:
+        if fw is None: raise Unsupported('implementation-level analysis of the forward kernel did not complete')
+        roundtrip_rounding(ck, ctx, fwd, inv, ia, fw)
+    except Unsupported as ex:
+        ck.ob('C17/roundtrip-rounding', 'UNDECIDED', f"round trip under rounding: kernel not of the analysed shape: {ex}")
     ck.floor('cells', 12)
-    ck.note('not_decided', ['the round trip within 1e-5 under rounding (formula level only)'])
     return ck.finish()
